@@ -5,6 +5,7 @@ import Driver.Ops.ApiMeta
 import Driver.Ops.ApiSchema
 import Driver.Ops.Bloom
 import Driver.Ops.C08More
+import Driver.Ops.CFun
 import Driver.Ops.Crc
 import Driver.Ops.Cursor
 import Driver.Ops.Delta
@@ -25,6 +26,7 @@ import Driver.Ops.Stats
 import Driver.Ops.Thrift
 import Driver.Ops.ThriftPageIndex
 import Driver.Gen.ApiSchema
+import Driver.Gen.CFun
 import Driver.Gen.ParDict
 import Driver.Gen.RefFiles
 /-
@@ -40,6 +42,7 @@ def handlers : List (Line → Option Verdict) :=
     Driver.Ops.ApiSchema.handle,
     Driver.Ops.Bloom.handle,
     Driver.Ops.C08More.handle,
+    Driver.Ops.CFun.handle,
     Driver.Ops.Crc.handle,
     Driver.Ops.Cursor.handle,
     Driver.Ops.Delta.handle,
@@ -81,6 +84,7 @@ partial def loop (h : IO.FS.Stream) (out : IO.FS.Stream) : IO Unit := do
 the real code (reference-written files for C06); each returns the lines to hand to the harness. -/
 def generators : List (String × (Nat → Bool → List String)) :=
   [ ("apischema", Driver.Gen.ApiSchema.gen),
+    ("cfun", Driver.Gen.CFun.gen),
     ("pardict", Driver.Gen.ParDict.gen),
     ("reffiles", Driver.Gen.RefFiles.gen) ]
 
